@@ -135,6 +135,8 @@ Diagnosed == m.diag # {}
 (***************************************************************************)
 \* "rejects ill-formed event streams only with an emitter error": no outcome but success or EmitterError
 NoCrash == m.outcome = "Crash" => Diagnosed
+\* the per-event caches prepared_anchor / prepared_tag are empty whenever a state method has returned
+PreparedCleared == Running(m) => (m.ptag = "" /\ m.panchor = "")
 \* a well-formed stream (prefix) is never rejected
 RejectsOnlyIllFormed == m.outcome = "EmitterError" => (~AttrOk(hist) \/ g = G!Reject)
 \* L => H_EventEq
